@@ -258,6 +258,14 @@ impl RocksDB {
 
     /// Write batch into transaction db.
     pub fn write(&self, batch: &RocksDBWriteBatch) -> Result<()> {
+        #[cfg(ckb_verif)]
+        {
+            let n = crate::verif::before_write("write");
+            let ret = self.inner.write(&batch.inner).map_err(internal_error);
+            crate::verif::after_write(n);
+            return ret;
+        }
+        #[cfg(not(ckb_verif))]
         self.inner.write(&batch.inner).map_err(internal_error)
     }
 
@@ -281,6 +289,17 @@ impl RocksDB {
     pub fn write_sync(&self, batch: &RocksDBWriteBatch) -> Result<()> {
         let mut wo = WriteOptions::new();
         wo.set_sync(true);
+        #[cfg(ckb_verif)]
+        {
+            let n = crate::verif::before_write("write_sync");
+            let ret = self
+                .inner
+                .write_opt(&batch.inner, &wo)
+                .map_err(internal_error);
+            crate::verif::after_write(n);
+            return ret;
+        }
+        #[cfg(not(ckb_verif))]
         self.inner
             .write_opt(&batch.inner, &wo)
             .map_err(internal_error)
